@@ -278,7 +278,8 @@ def judge_common(rig, driver, outcomes, desc):
         fails.append({"signature": "internal-error:" + errs[0][1].split("(")[0], "desc": desc, "errors": errs[:3]})
     if any(o != "quiescent" for o in outcomes):
         fails.append({"signature": "not-quiescent", "desc": desc})
-    left = [n for n in driver.alive() if n != "reader"]
+    # (until the client's EOF the reader legitimately waits for more input; after it, it has to come back from the protocol)
+    left = [n for n in driver.alive() if n != "reader" or desc.get("eof")]
     if desc.get("eof") and left:
         # after the client is gone nothing may be left running except applications blocked in their own receive()
         stuck = [n for n in left if not n.startswith("app")]
